@@ -603,6 +603,31 @@ def diff(a, b, path='', out=None, limit=6):
 
 
 # ------------------------------------------------------------------ one trip
+class HarnessTimeout(Exception):
+    pass
+
+
+class time_limit(object):
+    """abort a single save / load of the implementation that does not come back (SIGALRM; main thread only)"""
+
+    def __init__(self, seconds):
+        self.seconds = seconds
+
+    def __enter__(self):
+        import signal
+
+        def handler(signum, frame):
+            raise HarnessTimeout('no result after %d s' % self.seconds)
+        self.old = signal.signal(signal.SIGALRM, handler)
+        signal.alarm(self.seconds)
+
+    def __exit__(self, *a):
+        import signal
+        signal.alarm(0)
+        signal.signal(signal.SIGALRM, self.old)
+        return False
+
+
 def save(obj, include_data, serializer_cls=None):
     from glue.core.state import GlueSerializer
     cls = serializer_cls or GlueSerializer
@@ -642,11 +667,15 @@ def trip(spec, scratch, via_app=False, serializer_cls=None, aspects=None):
         obj = load(text)
         return obj.data_collection if via_app else obj
     try:
-        text = save_it(dc, 'a')
+        with time_limit(30):
+            text = save_it(dc, 'a')
+    except HarnessTimeout as e:
+        return {'status': 'load-failed', 'detail': 'saving does not terminate: %s' % e}
     except Exception as e:
         return {'status': 'save-failed', 'detail': '%s: %s' % (type(e).__name__, str(e)[:200])}
     try:
-        dc2 = load_it(text)
+        with time_limit(30):
+            dc2 = load_it(text)
         after = observe(dc2, aspects)
     except Exception as e:
         return {'status': 'load-failed', 'detail': '%s: %s' % (type(e).__name__, str(e)[:300]), 'types': sorted(types_in(text))}
@@ -654,11 +683,13 @@ def trip(spec, scratch, via_app=False, serializer_cls=None, aspects=None):
     if dd:
         return {'status': 'changed', 'detail': [[p, x, y] for p, x, y in dd], 'types': sorted(types_in(text))}
     try:
-        text2 = save_it(dc2, 'b')
+        with time_limit(30):
+            text2 = save_it(dc2, 'b')
     except Exception as e:
         return {'status': 'resave-failed', 'detail': '%s: %s' % (type(e).__name__, str(e)[:300])}
     try:
-        dc3 = load_it(text2)
+        with time_limit(30):
+            dc3 = load_it(text2)
         again = observe(dc3, aspects)
     except Exception as e:
         return {'status': 'not-idempotent', 'detail': 'second load: %s: %s' % (type(e).__name__, str(e)[:300])}
@@ -1327,6 +1358,8 @@ def stream_graph(R):
     impl_load = {}
     nfail = 0
     for ci, (g, o) in enumerate(zip(cases, outs)):
+        if nfail >= 10:
+            break       # enough failing inputs; a non-terminating load would otherwise cost 10 s per remaining case
         nodes = build_graph(g)
         gs = GlueSerializer(nodes[0])
         text = gs.dumps()
@@ -1357,7 +1390,8 @@ def stream_graph(R):
             R.fail('correspondence', {'stream': 'graph', 'graph': g}, {'impl': [order, recs], 'model': [m_order, m_recs]})
         # operational load on the real records; the model gets the records in index form
         try:
-            back = GlueUnSerializer.loads(text).object('__main__')
+            with time_limit(10):
+                back = GlueUnSerializer.loads(text).object('__main__')
             ok = True
         except GlueSerializeError as e:
             ok = False
@@ -1423,6 +1457,8 @@ SEEN_TYPES = set()
 
 
 def check_session(R, name, spec, via_app, stream, nfail):
+    if nfail[0] >= 12:
+        return {'status': 'skipped', 'detail': 'enough failing inputs already'}
     r = trip(spec, R.scratch, via_app=via_app)
     st = r['status']
     SEEN_TYPES.update(r.get('types') or [])
@@ -1433,8 +1469,9 @@ def check_session(R, name, spec, via_app, stream, nfail):
         k = classify(spec, r)
         if nfail[0] < 12 or k:
             nfail[0] += 1
-            small = shrink(spec, lambda s: trip(s, R.scratch, via_app=via_app)['status'] == st) if not k else spec
-            rr = trip(small, R.scratch, via_app=via_app)
+            hang = 'no result after' in str(r['detail'])
+            small = shrink(spec, lambda s: trip(s, R.scratch, via_app=via_app)['status'] == st) if not (k or hang) else spec
+            rr = trip(small, R.scratch, via_app=via_app) if small is not spec else r
             if rr['status'] != st:
                 small, rr = spec, r
             R.fail('oracle', {'stream': stream, 'name': name, 'via_app': via_app, 'spec': small}, {'status': rr['status'], 'detail': rr['detail']}, key=k)
